@@ -1,7 +1,8 @@
-(* C24: AsyncRequest -- invariants over ALL interleavings of Model/AsyncReqModel.v (any number of threads).
-   Part 1: counting invariants that hold for every program (any number of consumers).
-   Part 2: the state-machine invariant for programs with at most one consumer thread.
-   Part 3: the refutation for two concurrent consumers. *)
+(* C24: AsyncRequest -- invariants over ALL interleavings of Model/AsyncReqModel.v (any number of threads: requesters,
+   producers AND consumers; the model is the code after "fix: AsyncRequest::getUpdate must claim the update before moving it").
+   Part 1: counting invariants (results <-> ghost log, tags).
+   Part 2: the state-machine invariant None -> NeedsUpdate -> Updating -> Ready -> Updating(consumer) -> None.
+   Part 3: the former two-consumer witness as a regression run. *)
 From Coq Require Import ZArith List Bool Lia.
 From DV Require Import Base.MachInt Base.Sched Model.AsyncReqModel.
 Import ListNotations.
@@ -58,37 +59,23 @@ Proof. apply total_nonneg. intros [|x|]; cbn; try lia. destruct (x =? v); lia. Q
 (* ---------- per-thread indicators ---------- *)
 Definition iE (p : pc) : Z := match p with PEmplace _ => 1 | _ => 0 end.
 Definition iSR (p : pc) : Z := match p with PStoreReady => 1 | _ => 0 end.
-Definition iGL (p : pc) : Z := match p with PGetLoad => 1 | _ => 0 end.
 Definition iMV (p : pc) : Z := match p with PMove => 1 | _ => 0 end.
 Definition iSN (p : pc) : Z := match p with PMoveT _ | PStoreNone _ => 1 | _ => 0 end.
-Definition iC (p : pc) : bool := match p with PGetLoad | PMove | PMoveT _ | PStoreNone _ => true | _ => false end.
-Definition cons (th : thread) : Z := if iC (tpc th) || has_get (prog th) then 1 else 0.
 
 Definition nE (l : list thread) : Z := total (fun th => iE (tpc th)) l.
 Definition nSR (l : list thread) : Z := total (fun th => iSR (tpc th)) l.
-Definition nGL (l : list thread) : Z := total (fun th => iGL (tpc th)) l.
 Definition nMV (l : list thread) : Z := total (fun th => iMV (tpc th)) l.
 Definition nSN (l : list thread) : Z := total (fun th => iSN (tpc th)) l.
-Definition nC (l : list thread) : Z := total cons l.
 
 Lemma iE_range p : 0 <= iE p <= 1. Proof. destruct p; cbn; lia. Qed.
 Lemma iSR_range p : 0 <= iSR p <= 1. Proof. destruct p; cbn; lia. Qed.
-Lemma iGL_range p : 0 <= iGL p <= 1. Proof. destruct p; cbn; lia. Qed.
 Lemma iMV_range p : 0 <= iMV p <= 1. Proof. destruct p; cbn; lia. Qed.
 Lemma iSN_range p : 0 <= iSN p <= 1. Proof. destruct p; cbn; lia. Qed.
-Lemma cons_range th : 0 <= cons th <= 1. Proof. unfold cons. destruct (_ || _); lia. Qed.
 
 Lemma nE_nonneg l : 0 <= nE l. Proof. apply total_nonneg. intros; apply iE_range. Qed.
 Lemma nSR_nonneg l : 0 <= nSR l. Proof. apply total_nonneg. intros; apply iSR_range. Qed.
-Lemma nGL_nonneg l : 0 <= nGL l. Proof. apply total_nonneg. intros; apply iGL_range. Qed.
 Lemma nMV_nonneg l : 0 <= nMV l. Proof. apply total_nonneg. intros; apply iMV_range. Qed.
 Lemma nSN_nonneg l : 0 <= nSN l. Proof. apply total_nonneg. intros; apply iSN_range. Qed.
-
-Lemma consumers_bound l : nGL l + nMV l + nSN l <= nC l.
-Proof.
-  unfold nGL, nMV, nSN, nC. rewrite <- !total_plus. apply total_le.
-  intros th. unfold cons. destruct (tpc th); cbn; try lia; destruct (has_get (prog th)); lia.
-Qed.
 
 (* the effect of replacing thread t on all counters *)
 Lemma counters_change l t th th' :
@@ -96,21 +83,19 @@ Lemma counters_change l t th th' :
   nE (set_nth l t th') = nE l - iE (tpc th) + iE (tpc th') /\
   nSR (set_nth l t th') = nSR l - iSR (tpc th) + iSR (tpc th') /\
   nMV (set_nth l t th') = nMV l - iMV (tpc th) + iMV (tpc th') /\
-  nSN (set_nth l t th') = nSN l - iSN (tpc th) + iSN (tpc th') /\
-  nC (set_nth l t th') = nC l - cons th + cons th'.
+  nSN (set_nth l t th') = nSN l - iSN (tpc th) + iSN (tpc th').
 Proof.
-  intros N. unfold nE, nSR, nMV, nSN, nC.
+  intros N. unfold nE, nSR, nMV, nSN.
   rewrite !(total_set_nth _ _ _ _ _ N). repeat split; reflexivity.
 Qed.
 
 Lemma in_counters l t th :
   nth_error l t = Some th ->
-  iE (tpc th) <= nE l /\ iSR (tpc th) <= nSR l /\ iGL (tpc th) <= nGL l /\ iMV (tpc th) <= nMV l /\ iSN (tpc th) <= nSN l.
+  iE (tpc th) <= nE l /\ iSR (tpc th) <= nSR l /\ iMV (tpc th) <= nMV l /\ iSN (tpc th) <= nSN l.
 Proof.
-  intros N. unfold nE, nSR, nGL, nMV, nSN. repeat split.
+  intros N. unfold nE, nSR, nMV, nSN. repeat split.
   - apply (total_ge_nth (fun th => iE (tpc th)) l t th); [intros; apply iE_range | exact N].
   - apply (total_ge_nth (fun th => iSR (tpc th)) l t th); [intros; apply iSR_range | exact N].
-  - apply (total_ge_nth (fun th => iGL (tpc th)) l t th); [intros; apply iGL_range | exact N].
   - apply (total_ge_nth (fun th => iMV (tpc th)) l t th); [intros; apply iMV_range | exact N].
   - apply (total_ge_nth (fun th => iSN (tpc th)) l t th); [intros; apply iSN_range | exact N].
 Qed.
@@ -119,35 +104,14 @@ Qed.
 Lemma next_sec th : iE (tpc (next th)) = 0 /\ iSR (tpc (next th)) = 0 /\ iMV (tpc (next th)) = 0 /\ iSN (tpc (next th)) = 0.
 Proof. unfold next. destruct (prog th) as [|o r]; cbn; [auto|]. destruct o; cbn; auto. Qed.
 
-Lemma cons_next th : cons (next th) <= cons th.
-Proof.
-  unfold cons, next. destruct (prog th) as [|o r]; cbn.
-  - destruct (iC (tpc th)); cbn; lia.
-  - replace (iC (entry o)) with (is_get o) by (destruct o; reflexivity).
-    destruct (is_get o || existsb is_get r); destruct (iC (tpc th)); cbn; lia.
-Qed.
-
 Lemma next_logr th a b : tpc (next (logr th a b)) = tpc (next th) /\ prog (next (logr th a b)) = prog (next th).
 Proof. unfold next, logr; cbn. destruct (prog th); cbn; auto. Qed.
-
-Lemma cons_next_logr th a b : cons (next (logr th a b)) = cons (next th).
-Proof. unfold cons. destruct (next_logr th a b) as [-> ->]. reflexivity. Qed.
 
 Lemma next_log_get th r : tpc (next (log_get th r)) = tpc (next th) /\ prog (next (log_get th r)) = prog (next th).
 Proof. destruct r; cbn; apply next_logr. Qed.
 
-Lemma cons_next_log_get th r : cons (next (log_get th r)) = cons (next th).
-Proof. unfold cons. destruct (next_log_get th r) as [-> ->]. reflexivity. Qed.
-
-Lemma cons_goto th p : (iC p = true -> iC (tpc th) = true) -> cons (goto th p) <= cons th.
-Proof.
-  intros H. unfold cons, goto; cbn. destruct (iC p); cbn.
-  - rewrite H by reflexivity. cbn. lia.
-  - unfold has_get. destruct (existsb is_get (prog th)); destruct (iC (tpc th)); cbn; lia.
-Qed.
-
 (* ====================================================================================================
-   Part 1: counting invariants, every program
+   Part 1: counting invariants
    ==================================================================================================== *)
 Definition pend (v : Z) (p : pc) : Z :=
   match p with PMoveT (Some x) | PStoreNone (Some x) => if x =? v then 1 else 0 | _ => 0 end.
@@ -282,10 +246,10 @@ Proof.
     + g3 P CE. destruct (word s =? kNeedsUpdate); kfin.
     + auto.
     + auto.
-  - (* PGetLoad *) destruct (word s =? kReady) eqn:W; injection E as <- _ _; constructor; cbn [word obj hist threads keep]; unfold cntGet, cntEmp, cntEmpAll, cntReq.
+  - (* PGetCas *) destruct (word s =? kReady) eqn:W; injection E as <- _ _; constructor; cbn [word obj hist threads keep]; unfold cntGet, cntEmp, cntEmpAll, cntReq.
     + g1 P TG.
     + g2 P TR R TN.
-    + g3 P CE.
+    + g3 P CE. apply Z.eqb_eq in W. rewrite W in Q. kfin.
     + auto.
     + auto.
     + g1 P TG.
@@ -360,7 +324,8 @@ Proof.
 Qed.
 
 (* ====================================================================================================
-   Part 2: at most one consumer thread -- the state machine None -> NeedsUpdate -> Updating -> Ready -> None
+   Part 2: the state machine.  kUpdating is held by exactly one thread: a producer between its CAS and its store of
+   kReady, or a consumer between its CAS and its store of kNone.
    ==================================================================================================== *)
 Definition hdk (h : list ev) : Z :=
   match h with [] => 0 | EvGet _ :: _ => 0 | EvReq :: _ => 1 | EvEmplace _ :: _ => 2 end.
@@ -375,24 +340,25 @@ Fixpoint cyc (h : list ev) : Prop :=
   | EvGet v :: r => fresh (Some v) r /\ cyc r
   end.
 
+Definition nSec (l : list thread) : Z := nE l + nSR l + nMV l + nSN l.
+
 Record Inv (s : state) : Prop := {
-  i_c : nC (threads s) <= 1;
   i_w : 0 <= word s <= 3;
-  i_p2 : word s = 2 -> nE (threads s) + nSR (threads s) = 1;
-  i_pn : word s <> 2 -> nE (threads s) + nSR (threads s) = 0;
-  i_g : word s <> 3 -> nMV (threads s) + nSN (threads s) = 0;
+  i_p2 : word s = 2 -> nSec (threads s) = 1;
+  i_pn : word s <> 2 -> nSec (threads s) = 0;
   i_h0 : word s = 0 -> hdk (hist s) = 0;
   i_h1 : word s = 1 -> hdk (hist s) = 1;
   i_hE : nE (threads s) = 1 -> hdk (hist s) = 1;
   i_fSR : nSR (threads s) = 1 -> fresh (obj s) (hist s);
-  i_fR : word s = 3 -> nSN (threads s) = 0 -> fresh (obj s) (hist s);
+  i_fR : word s = 3 -> fresh (obj s) (hist s);
+  i_fMV : nMV (threads s) = 1 -> fresh (obj s) (hist s);
   i_hSN : nSN (threads s) = 1 -> hdk (hist s) = 0;
   i_cyc : cyc (hist s)
 }.
 
 Ltac close1 I :=
   first [ lia
-        | apply (i_fSR _ I); lia | apply (i_fR _ I); lia | apply (i_hSN _ I); lia | apply (i_hE _ I); lia
+        | apply (i_fSR _ I); lia | apply (i_fR _ I); lia | apply (i_fMV _ I); lia | apply (i_hSN _ I); lia | apply (i_hE _ I); lia
         | apply (i_h0 _ I); lia | apply (i_h1 _ I); lia | exact (i_cyc _ I) | exfalso; lia ].
 Ltac close I := intros; first [ close1 I | split; close1 I ].
 
@@ -400,112 +366,91 @@ Lemma step_inv s t ch s' ch' site : Inv s -> step s t ch = Some (s', ch', site) 
 Proof.
   intros I E. unfold step in E.
   destruct (nth_error (threads s) t) as [th|] eqn:N; [|discriminate].
-  pose proof (i_c _ I) as Ic. pose proof (i_w _ I) as Iw. pose proof (i_p2 _ I) as Ip2. pose proof (i_pn _ I) as Ipn.
-  pose proof (i_g _ I) as Ig.
-  pose proof (consumers_bound (threads s)) as CB.
-  pose proof (nE_nonneg (threads s)). pose proof (nSR_nonneg (threads s)). pose proof (nGL_nonneg (threads s)).
+  pose proof (i_w _ I) as Iw. pose proof (i_p2 _ I) as Ip2. pose proof (i_pn _ I) as Ipn.
+  pose proof (nE_nonneg (threads s)). pose proof (nSR_nonneg (threads s)).
   pose proof (nMV_nonneg (threads s)). pose proof (nSN_nonneg (threads s)).
-  destruct (in_counters _ _ _ N) as (inE & inSR & inGL & inMV & inSN).
-  pose proof (cons_range th) as Rc.
+  destruct (in_counters _ _ _ N) as (inE & inSR & inMV & inSN).
+  assert (S1 : nSec (threads s) <= 1) by (destruct (Z.eq_dec (word s) 2) as [e|e]; [rewrite (Ip2 e) | rewrite (Ipn e)]; lia).
+  unfold nSec in *.
   unfold kNone, kNeedsUpdate, kUpdating, kReady in *.
-  destruct (tpc th) eqn:P; cbn [iE iSR iGL iMV iSN] in *.
+  destruct (tpc th) eqn:P; cbn [iE iSR iMV iSN] in *.
   - (* PStart *) injection E as <- _ _.
-    destruct (counters_change _ _ _ (next th) N) as (cE & cSR & cMV & cSN & cC).
-    destruct (next_sec th) as (e1 & e2 & e3 & e4). rewrite ?P, ?e1, ?e2, ?e3, ?e4 in *. cbn [iE iSR iGL iMV iSN] in *.
-    pose proof (cons_next th).
-    constructor; cbn [word obj hist threads keep hdk fresh cyc]; rewrite ?cE, ?cSR, ?cMV, ?cSN, ?cC; close I.
+    destruct (counters_change _ _ _ (next th) N) as (cE & cSR & cMV & cSN).
+    destruct (next_sec th) as (e1 & e2 & e3 & e4). rewrite ?P, ?e1, ?e2, ?e3, ?e4 in *. cbn [iE iSR iMV iSN] in *.
+    constructor; unfold nSec; cbn [word obj hist threads keep hdk fresh cyc]; rewrite ?cE, ?cSR, ?cMV, ?cSN; close I.
   - (* PReqCas *) destruct (word s =? 0) eqn:W; [apply Z.eqb_eq in W | apply Z.eqb_neq in W]; injection E as <- _ _.
-    + destruct (counters_change _ _ _ (next th) N) as (cE & cSR & cMV & cSN & cC).
-      destruct (next_sec th) as (e1 & e2 & e3 & e4). rewrite ?P, ?e1, ?e2, ?e3, ?e4 in *. cbn [iE iSR iGL iMV iSN] in *.
-      pose proof (cons_next th).
-      constructor; cbn [word obj hist threads keep hdk fresh cyc]; rewrite ?cE, ?cSR, ?cMV, ?cSN, ?cC; close I.
-    + destruct (counters_change _ _ _ (next th) N) as (cE & cSR & cMV & cSN & cC).
-      destruct (next_sec th) as (e1 & e2 & e3 & e4). rewrite ?P, ?e1, ?e2, ?e3, ?e4 in *. cbn [iE iSR iGL iMV iSN] in *.
-      pose proof (cons_next th).
-      constructor; cbn [word obj hist threads keep hdk fresh cyc]; rewrite ?cE, ?cSR, ?cMV, ?cSN, ?cC; close I.
+    + destruct (counters_change _ _ _ (next th) N) as (cE & cSR & cMV & cSN).
+      destruct (next_sec th) as (e1 & e2 & e3 & e4). rewrite ?P, ?e1, ?e2, ?e3, ?e4 in *. cbn [iE iSR iMV iSN] in *.
+      constructor; unfold nSec; cbn [word obj hist threads keep hdk fresh cyc]; rewrite ?cE, ?cSR, ?cMV, ?cSN; close I.
+    + destruct (counters_change _ _ _ (next th) N) as (cE & cSR & cMV & cSN).
+      destruct (next_sec th) as (e1 & e2 & e3 & e4). rewrite ?P, ?e1, ?e2, ?e3, ?e4 in *. cbn [iE iSR iMV iSN] in *.
+      constructor; unfold nSec; cbn [word obj hist threads keep hdk fresh cyc]; rewrite ?cE, ?cSR, ?cMV, ?cSN; close I.
   - (* PUpdLoad *) injection E as <- _ _.
-    destruct (counters_change _ _ _ (next (logr th r_updreq (b2z (word s =? 1)))) N) as (cE & cSR & cMV & cSN & cC).
-    destruct (next_logr th r_updreq (b2z (word s =? 1))) as [q1 q2]. rewrite (cons_next_logr th r_updreq (b2z (word s =? 1))) in cC. rewrite q1 in *.
-    destruct (next_sec th) as (e1 & e2 & e3 & e4). rewrite ?P, ?e1, ?e2, ?e3, ?e4 in *. cbn [iE iSR iGL iMV iSN] in *.
-    pose proof (cons_next th).
-    constructor; cbn [word obj hist threads keep hdk fresh cyc]; rewrite ?cE, ?cSR, ?cMV, ?cSN, ?cC; close I.
+    destruct (counters_change _ _ _ (next (logr th r_updreq (b2z (word s =? 1)))) N) as (cE & cSR & cMV & cSN).
+    destruct (next_logr th r_updreq (b2z (word s =? 1))) as [q1 q2]. rewrite q1 in *.
+    destruct (next_sec th) as (e1 & e2 & e3 & e4). rewrite ?P, ?e1, ?e2, ?e3, ?e4 in *. cbn [iE iSR iMV iSN] in *.
+    constructor; unfold nSec; cbn [word obj hist threads keep hdk fresh cyc]; rewrite ?cE, ?cSR, ?cMV, ?cSN; close I.
   - (* PEmpCas *) destruct (word s =? 1) eqn:W; [apply Z.eqb_eq in W | apply Z.eqb_neq in W]; injection E as <- _ _.
-    + destruct (counters_change _ _ _ (goto th (PEmplace v)) N) as (cE & cSR & cMV & cSN & cC).
-      assert (cons (goto th (PEmplace v)) <= cons th) by (apply cons_goto; rewrite P; cbn; auto).
-      rewrite ?P in *. cbn [tpc goto iE iSR iGL iMV iSN] in *.
-      constructor; cbn [word obj hist threads keep hdk fresh cyc]; rewrite ?cE, ?cSR, ?cMV, ?cSN, ?cC; close I.
-    + destruct (counters_change _ _ _ (next (logr th r_emplace 0)) N) as (cE & cSR & cMV & cSN & cC).
-      destruct (next_logr th r_emplace 0) as [q1 q2]. rewrite (cons_next_logr th r_emplace 0) in cC. rewrite q1 in *.
-      destruct (next_sec th) as (e1 & e2 & e3 & e4). rewrite ?P, ?e1, ?e2, ?e3, ?e4 in *. cbn [iE iSR iGL iMV iSN] in *.
-      pose proof (cons_next th).
-      constructor; cbn [word obj hist threads keep hdk fresh cyc]; rewrite ?cE, ?cSR, ?cMV, ?cSN, ?cC; close I.
+    + destruct (counters_change _ _ _ (goto th (PEmplace v)) N) as (cE & cSR & cMV & cSN).
+      rewrite ?P in *. cbn [tpc goto iE iSR iMV iSN] in *.
+      constructor; unfold nSec; cbn [word obj hist threads keep hdk fresh cyc]; rewrite ?cE, ?cSR, ?cMV, ?cSN; close I.
+    + destruct (counters_change _ _ _ (next (logr th r_emplace 0)) N) as (cE & cSR & cMV & cSN).
+      destruct (next_logr th r_emplace 0) as [q1 q2]. rewrite q1 in *.
+      destruct (next_sec th) as (e1 & e2 & e3 & e4). rewrite ?P, ?e1, ?e2, ?e3, ?e4 in *. cbn [iE iSR iMV iSN] in *.
+      constructor; unfold nSec; cbn [word obj hist threads keep hdk fresh cyc]; rewrite ?cE, ?cSR, ?cMV, ?cSN; close I.
   - (* PEmplace *) injection E as <- _ _.
-    destruct (counters_change _ _ _ (goto th (PStoreReady)) N) as (cE & cSR & cMV & cSN & cC).
-    assert (cons (goto th (PStoreReady)) <= cons th) by (apply cons_goto; rewrite P; cbn; auto).
-    rewrite ?P in *. cbn [tpc goto iE iSR iGL iMV iSN] in *.
-    constructor; cbn [word obj hist threads keep hdk fresh cyc]; rewrite ?cE, ?cSR, ?cMV, ?cSN, ?cC; close I.
+    destruct (counters_change _ _ _ (goto th (PStoreReady)) N) as (cE & cSR & cMV & cSN).
+    rewrite ?P in *. cbn [tpc goto iE iSR iMV iSN] in *.
+    constructor; unfold nSec; cbn [word obj hist threads keep hdk fresh cyc]; rewrite ?cE, ?cSR, ?cMV, ?cSN; close I.
   - (* PStoreReady *) injection E as <- _ _.
-    destruct (counters_change _ _ _ (next (logr th r_emplace 1)) N) as (cE & cSR & cMV & cSN & cC).
-    destruct (next_logr th r_emplace 1) as [q1 q2]. rewrite (cons_next_logr th r_emplace 1) in cC. rewrite q1 in *.
-    destruct (next_sec th) as (e1 & e2 & e3 & e4). rewrite ?P, ?e1, ?e2, ?e3, ?e4 in *. cbn [iE iSR iGL iMV iSN] in *.
-    pose proof (cons_next th).
-    constructor; cbn [word obj hist threads keep hdk fresh cyc]; rewrite ?cE, ?cSR, ?cMV, ?cSN, ?cC; close I.
-  - (* PGetLoad *) destruct (word s =? 3) eqn:W; [apply Z.eqb_eq in W | apply Z.eqb_neq in W]; injection E as <- _ _.
-    + destruct (counters_change _ _ _ (goto th (PMove)) N) as (cE & cSR & cMV & cSN & cC).
-      assert (cons (goto th (PMove)) <= cons th) by (apply cons_goto; rewrite P; cbn; auto).
-      rewrite ?P in *. cbn [tpc goto iE iSR iGL iMV iSN] in *.
-      constructor; cbn [word obj hist threads keep hdk fresh cyc]; rewrite ?cE, ?cSR, ?cMV, ?cSN, ?cC; close I.
-    + destruct (counters_change _ _ _ (next (logr th r_getnone 0)) N) as (cE & cSR & cMV & cSN & cC).
-      destruct (next_logr th r_getnone 0) as [q1 q2]. rewrite (cons_next_logr th r_getnone 0) in cC. rewrite q1 in *.
-      destruct (next_sec th) as (e1 & e2 & e3 & e4). rewrite ?P, ?e1, ?e2, ?e3, ?e4 in *. cbn [iE iSR iGL iMV iSN] in *.
-      pose proof (cons_next th).
-      constructor; cbn [word obj hist threads keep hdk fresh cyc]; rewrite ?cE, ?cSR, ?cMV, ?cSN, ?cC; close I.
+    destruct (counters_change _ _ _ (next (logr th r_emplace 1)) N) as (cE & cSR & cMV & cSN).
+    destruct (next_logr th r_emplace 1) as [q1 q2]. rewrite q1 in *.
+    destruct (next_sec th) as (e1 & e2 & e3 & e4). rewrite ?P, ?e1, ?e2, ?e3, ?e4 in *. cbn [iE iSR iMV iSN] in *.
+    constructor; unfold nSec; cbn [word obj hist threads keep hdk fresh cyc]; rewrite ?cE, ?cSR, ?cMV, ?cSN; close I.
+  - (* PGetCas *) destruct (word s =? 3) eqn:W; [apply Z.eqb_eq in W | apply Z.eqb_neq in W]; injection E as <- _ _.
+    + destruct (counters_change _ _ _ (goto th (PMove)) N) as (cE & cSR & cMV & cSN).
+      rewrite ?P in *. cbn [tpc goto iE iSR iMV iSN] in *.
+      constructor; unfold nSec; cbn [word obj hist threads keep hdk fresh cyc]; rewrite ?cE, ?cSR, ?cMV, ?cSN; close I.
+    + destruct (counters_change _ _ _ (next (logr th r_getnone 0)) N) as (cE & cSR & cMV & cSN).
+      destruct (next_logr th r_getnone 0) as [q1 q2]. rewrite q1 in *.
+      destruct (next_sec th) as (e1 & e2 & e3 & e4). rewrite ?P, ?e1, ?e2, ?e3, ?e4 in *. cbn [iE iSR iMV iSN] in *.
+      constructor; unfold nSec; cbn [word obj hist threads keep hdk fresh cyc]; rewrite ?cE, ?cSR, ?cMV, ?cSN; close I.
   - (* PMove *) destruct (obj s) as [x|] eqn:Ob; injection E as <- _ _.
-    + destruct (counters_change _ _ _ (goto th (PMoveT (Some x))) N) as (cE & cSR & cMV & cSN & cC).
-      assert (cons (goto th (PMoveT (Some x))) <= cons th) by (apply cons_goto; rewrite P; cbn; auto).
-      rewrite ?P in *. cbn [tpc goto iE iSR iGL iMV iSN] in *.
-      constructor; cbn [word obj hist threads keep hdk fresh cyc]; rewrite ?cE, ?cSR, ?cMV, ?cSN, ?cC; try (close I).
-      split; [rewrite <- Ob; apply (i_fR _ I); lia | exact (i_cyc _ I)].
-    + destruct (counters_change _ _ _ (goto th (PStoreNone None)) N) as (cE & cSR & cMV & cSN & cC).
-      assert (cons (goto th (PStoreNone None)) <= cons th) by (apply cons_goto; rewrite P; cbn; auto).
-      rewrite ?P in *. cbn [tpc goto iE iSR iGL iMV iSN] in *.
-      exfalso. assert (F : fresh (obj s) (hist s)) by (apply (i_fR _ I); lia).
+    + destruct (counters_change _ _ _ (goto th (PMoveT (Some x))) N) as (cE & cSR & cMV & cSN).
+      rewrite ?P in *. cbn [tpc goto iE iSR iMV iSN] in *.
+      constructor; unfold nSec; cbn [word obj hist threads keep hdk fresh cyc]; rewrite ?cE, ?cSR, ?cMV, ?cSN; try (close I).
+      split; [rewrite <- Ob; apply (i_fMV _ I); lia | exact (i_cyc _ I)].
+    + exfalso. assert (F : fresh (obj s) (hist s)) by (apply (i_fMV _ I); lia).
       rewrite Ob in F. unfold fresh in F. destruct (hist s) as [|[| |] ?]; try contradiction; discriminate.
   - (* PMoveT *) injection E as <- _ _.
-    destruct (counters_change _ _ _ (goto th (PStoreNone r)) N) as (cE & cSR & cMV & cSN & cC).
-    assert (cons (goto th (PStoreNone r)) <= cons th) by (apply cons_goto; rewrite P; cbn; auto).
-    rewrite ?P in *. cbn [tpc goto iE iSR iGL iMV iSN] in *.
-    constructor; cbn [word obj hist threads keep hdk fresh cyc]; rewrite ?cE, ?cSR, ?cMV, ?cSN, ?cC; close I.
+    destruct (counters_change _ _ _ (goto th (PStoreNone r)) N) as (cE & cSR & cMV & cSN).
+    rewrite ?P in *. cbn [tpc goto iE iSR iMV iSN] in *.
+    constructor; unfold nSec; cbn [word obj hist threads keep hdk fresh cyc]; rewrite ?cE, ?cSR, ?cMV, ?cSN; close I.
   - (* PStoreNone *) injection E as <- _ _.
-    destruct (counters_change _ _ _ (next (log_get th r)) N) as (cE & cSR & cMV & cSN & cC).
-    destruct (next_log_get th r) as [q1 q2]. rewrite (cons_next_log_get th r) in cC. rewrite q1 in *.
-    destruct (next_sec th) as (e1 & e2 & e3 & e4). rewrite ?P, ?e1, ?e2, ?e3, ?e4 in *. cbn [iE iSR iGL iMV iSN] in *.
-    pose proof (cons_next th).
-    constructor; cbn [word obj hist threads keep hdk fresh cyc]; rewrite ?cE, ?cSR, ?cMV, ?cSN, ?cC; close I.
+    destruct (counters_change _ _ _ (next (log_get th r)) N) as (cE & cSR & cMV & cSN).
+    destruct (next_log_get th r) as [q1 q2]. rewrite q1 in *.
+    destruct (next_sec th) as (e1 & e2 & e3 & e4). rewrite ?P, ?e1, ?e2, ?e3, ?e4 in *. cbn [iE iSR iMV iSN] in *.
+    constructor; unfold nSec; cbn [word obj hist threads keep hdk fresh cyc]; rewrite ?cE, ?cSR, ?cMV, ?cSN; close I.
   - discriminate.
 Qed.
 
 Lemma counters_init progs :
   let l := map (fun p => TH PStart p []) progs in
-  nE l = 0 /\ nSR l = 0 /\ nMV l = 0 /\ nSN l = 0 /\ nC l = Z.of_nat (length (filter has_get progs)).
+  nE l = 0 /\ nSR l = 0 /\ nMV l = 0 /\ nSN l = 0.
 Proof.
-  unfold nE, nSR, nMV, nSN, nC. induction progs as [|p r IH]; cbn [map total filter length]; [repeat split; reflexivity|].
-  destruct IH as (a & b & c & d & e). cbn [tpc iE iSR iMV iSN]. rewrite a, b, c, d, e.
-  repeat split; try reflexivity. unfold cons at 1. cbn [tpc prog iC orb].
-  destruct (has_get p); cbn [length]; lia.
+  unfold nE, nSR, nMV, nSN. induction progs as [|p r IH]; cbn [map total]; [repeat split; reflexivity|].
+  destruct IH as (a & b & c & d). cbn [tpc iE iSR iMV iSN]. rewrite a, b, c, d. repeat split; reflexivity.
 Qed.
 
-Lemma init_inv kp progs : single_consumer progs = true -> Inv (init kp progs).
+Lemma init_inv kp progs : Inv (init kp progs).
 Proof.
-  intros SC. unfold single_consumer in SC. apply Z.leb_le in SC.
-  destruct (counters_init progs) as (a & b & c & d & e).
-  constructor; unfold init; cbn [word obj hist threads keep hdk cyc]; unfold kNone; rewrite ?a, ?b, ?c, ?d, ?e; intros; try lia; auto.
+  destruct (counters_init progs) as (a & b & c & d).
+  constructor; unfold init, nSec; cbn [word obj hist threads keep hdk cyc]; unfold kNone; rewrite ?a, ?b, ?c, ?d; intros; try lia; auto.
 Qed.
 
-Theorem single_consumer_invariant kp progs s :
-  single_consumer progs = true -> reach step (init kp progs) s -> Inv s.
+Theorem state_machine_invariant kp progs s : reach step (init kp progs) s -> Inv s.
 Proof.
-  intros SC Re. apply (reach_inv step Inv (init kp progs)); [apply init_inv; exact SC | | exact Re].
+  intros Re. apply (reach_inv step Inv (init kp progs)); [apply init_inv | | exact Re].
   intros s1 t ch s1' ch' site I E. eapply step_inv; eauto.
 Qed.
 
@@ -576,7 +521,7 @@ Qed.
 
 (* ---------- the three named properties ---------- *)
 
-(* every program, any number of consumers: successful emplacements never outnumber successful requests *)
+(* successful emplacements never outnumber successful requests *)
 Theorem emplace_count_le_requests kp progs s :
   reach step (init kp progs) s -> cntEmpAll (hist s) <= cntReq (hist s).
 Proof.
@@ -584,7 +529,7 @@ Proof.
   destruct (word s =? kNeedsUpdate); lia.
 Qed.
 
-(* every program: a delivered value was emplaced (it is one of the programs' tags, and its emplacement is in the log) *)
+(* a delivered value was emplaced (it is one of the programs' tags, and its emplacement is in the log) *)
 Theorem delivered_was_emplaced kp progs s v :
   reach step (init kp progs) s -> 0 < delivered v s -> 0 < cntEmp v (hist s) /\ In v (all_tags progs).
 Proof.
@@ -593,65 +538,57 @@ Proof.
   split; [exact E|]. apply tag_count_pos_in. pose proof (emplaces_le_tags _ _ _ v Re). lia.
 Qed.
 
-(* single consumer: an emplacement directly follows a successful request (one emplacement per request) *)
+(* an emplacement directly follows a successful request (one emplacement per request) *)
 Theorem emplace_only_when_requested kp progs s h1 v h2 :
-  single_consumer progs = true -> reach step (init kp progs) s ->
+  reach step (init kp progs) s ->
   hist s = h1 ++ EvEmplace v :: h2 -> exists h3, h2 = EvReq :: h3.
 Proof.
-  intros SC Re Hh. pose proof (i_cyc _ (single_consumer_invariant _ _ _ SC Re)) as C. rewrite Hh in C.
+  intros Re Hh. pose proof (i_cyc _ (state_machine_invariant _ _ _ Re)) as C. rewrite Hh in C.
   apply cyc_suffix in C. apply cyc_emplace_shape in C. exact C.
 Qed.
 
-(* single consumer: a value-returning getUpdate directly follows the emplacement of that value, which directly follows
+(* a value-returning getUpdate directly follows the emplacement of that value, which directly follows
    the latest successful request: no request, emplacement or other delivery in between *)
 Theorem get_only_after_emplace_since_request kp progs s h1 v h2 :
-  single_consumer progs = true -> reach step (init kp progs) s ->
+  reach step (init kp progs) s ->
   hist s = h1 ++ EvGet v :: h2 -> exists h3, h2 = EvEmplace v :: EvReq :: h3.
 Proof.
-  intros SC Re Hh. pose proof (i_cyc _ (single_consumer_invariant _ _ _ SC Re)) as C. rewrite Hh in C.
+  intros Re Hh. pose proof (i_cyc _ (state_machine_invariant _ _ _ Re)) as C. rewrite Hh in C.
   apply cyc_suffix in C. apply cyc_get_shape in C. exact C.
 Qed.
 
-(* single consumer, unique tags: no value is returned twice (counted over the results of all threads) *)
+(* unique tags: no value is returned twice (counted over the results of all threads) *)
 Theorem each_value_delivered_at_most_once kp progs s v :
-  single_consumer progs = true -> NoDup (all_tags progs) -> reach step (init kp progs) s -> delivered v s <= 1.
+  NoDup (all_tags progs) -> reach step (init kp progs) s -> delivered v s <= 1.
 Proof.
-  intros SC ND Re.
+  intros ND Re.
   pose proof (delivered_le_gets _ _ _ v Re) as L1.
-  pose proof (cyc_gets_le_emplaces v _ (i_cyc _ (single_consumer_invariant _ _ _ SC Re))) as L2.
+  pose proof (cyc_gets_le_emplaces v _ (i_cyc _ (state_machine_invariant _ _ _ Re))) as L2.
   assert (0 <= bonus v (hist s)) by (unfold bonus; destruct (hist s) as [|[|y|y] ?]; try lia; destruct (y =? v); lia).
   pose proof (emplaces_le_tags _ _ _ v Re) as L3.
   pose proof (tag_count_nodup v _ ND). lia.
 Qed.
 
-(* single consumer: mutual exclusion facts read off the invariant *)
-Theorem producer_consumer_exclusion kp progs s :
-  single_consumer progs = true -> reach step (init kp progs) s ->
-  nE (threads s) + nSR (threads s) <= 1 /\ nMV (threads s) + nSN (threads s) <= 1 /\
-  (0 < nE (threads s) + nSR (threads s) -> word s = kUpdating) /\ (0 < nMV (threads s) + nSN (threads s) -> word s = kReady).
+(* mutual exclusion: at most one thread -- producer or consumer -- is between its CAS and its store, exactly when the
+   state word is kUpdating *)
+Theorem sections_exclusive kp progs s :
+  reach step (init kp progs) s ->
+  nSec (threads s) <= 1 /\ (0 < nSec (threads s) <-> word s = kUpdating).
 Proof.
-  intros SC Re. pose proof (single_consumer_invariant _ _ _ SC Re) as I.
-  pose proof (i_c _ I). pose proof (i_w _ I). pose proof (i_p2 _ I). pose proof (i_pn _ I). pose proof (i_g _ I).
-  pose proof (consumers_bound (threads s)). pose proof (nGL_nonneg (threads s)).
-  unfold kUpdating, kReady. repeat split; lia.
+  intros Re. pose proof (state_machine_invariant _ _ _ Re) as I.
+  pose proof (i_w _ I). pose proof (i_p2 _ I) as A. pose proof (i_pn _ I) as B.
+  unfold kUpdating. destruct (Z.eq_dec (word s) 2) as [e|e]; [rewrite (A e) | rewrite (B e)]; repeat split; intros; lia.
 Qed.
 
 (* ====================================================================================================
-   Part 3: two concurrent consumers -- the same value is delivered twice (both OpResult flavours)
+   Part 3: the former witness of the two-consumer double delivery, as a regression run: one consumer wins the CAS
    ==================================================================================================== *)
-Definition refute_progs : list (list op) := [[OReq; OEmplace 7]; [OGet]; [OGet]].
-Definition refute_sched : list Z := [0; 0; 0; 0; 0; 0; 1; 0; 1; 0; 1; 0; 1; 0; 0].
+Definition regr_progs : list (list op) := [[OReq; OEmplace 7]; [OGet]; [OGet]].
+Definition regr_sched : list Z := [0; 0; 0; 0; 0; 0; 1; 0; 1; 0; 1; 0; 1; 0; 0].
+Definition regr_state (kp : bool) : state := fst (fst (run_ar 20 kp regr_progs regr_sched)).
 
-Definition refute_state (kp : bool) : state := fst (fst (run_ar 20 kp refute_progs refute_sched)).
-
-Lemma refuted_run kp :
-  delivered 7 (refute_state kp) = 2 /\
-  map (fun th => rev (res th)) (threads (refute_state kp)) = [[(r_emplace, 1)]; [(r_get, 7)]; [(r_get, 7)]] /\
-  snd (run_ar 20 kp refute_progs refute_sched) = SDone.
+Lemma regression_run kp :
+  delivered 7 (regr_state kp) = 1 /\
+  map (fun th => rev (res th)) (threads (regr_state kp)) = [[(r_emplace, 1)]; [(r_get, 7)]; [(r_getnone, 0)]] /\
+  snd (run_ar 20 kp regr_progs regr_sched) = SDone.
 Proof. destruct kp; vm_compute; repeat split; reflexivity. Qed.
-
-Lemma refuted_reach kp : exists s, reach step (init kp refute_progs) s /\ delivered 7 s = 2.
-Proof.
-  exists (refute_state kp). split; [|apply refuted_run].
-  unfold refute_state, run_ar. apply run_reach. apply reach_refl.
-Qed.
